@@ -148,6 +148,11 @@ type Uint64MapBuilder struct {
 }
 
 func NewUint64MapBuilder(bucketBits int, tagBits int) *Uint64MapBuilder {
+	if bucketBits < tagBits {
+		// A bucket header packs (id >> bucketBits) << tagBits into 64 bits, which
+		// only keeps every bit of id if at least tagBits bits are shifted out.
+		bucketBits = tagBits
+	}
 	return &Uint64MapBuilder{
 		Layout: Uint64MapLayout{
 			BucketBits: bucketBits,
